@@ -200,7 +200,7 @@ func (e *Enc) instr(in ssa.Instruction, st *State) {
 		e.set(in, &Val{typ: in.Type(), c: x.c[lo:hi]})
 	case *ssa.ChangeType:
 		if x := e.val(in.X); len(x.c) == 1 && len(leaves(in.Type())) == 2 {
-			tag := e.fresh("tparam.tag", "Int")
+			tag := app(e.declareFun("tparam!tag", "(Int) Int"), x.c[0]) // a function of the value: the same value has the same dynamic type
 			e.set(in, &Val{typ: in.Type(), c: []string{tag, app("box", x.c[0])}})
 		} else {
 			e.set(in, &Val{typ: in.Type(), c: x.c})
